@@ -60,6 +60,8 @@ NormPs(S) == {Norm(e) : e \in S}
 SamePs(a, b) == NormPs(a) = NormPs(b)
 
 \* environment: [follower, dmin, dmax, strat, ms, paths, blocks, fail, logfail, deferred]
+\* env.getfail: the CIDs whose State.Get (PinGet) fails at the moment with an error that is not "not found"
+GetFails(env, c) == c \in Range(env.getfail)
 \* env.deferred: the consensus component acknowledges LogPin/LogUnpin into a queue; State() (what pin(), Unpin(),
 \* PinUpdate() and Pins() read) shows only what has been committed; Flush commits the queue in order (crdt
 \* batching, a raft follower that lags behind)
@@ -128,6 +130,7 @@ RemoveSharded(c, cs, l, n) == [kind |-> "remove", cid |-> c, cids |-> cs, log |-
 \* Cluster.PinUpdate(from, to, opts)
 UpdateDecide(env, ps, from, to, o) ==
     IF UpdateGuard /\ env.follower THEN Refuse
+    ELSE IF GetFails(env, from) THEN Refuse                  \* PinGet(from) fails: the error is returned
     ELSE IF ~Has(ps, from) THEN Refuse
     ELSE LET s == Ent(ps, from) IN
          IF s.type # "data" THEN Refuse
@@ -140,6 +143,9 @@ PinDecide(env, ps, p0, bl) ==
     IF env.follower THEN Refuse
     ELSE IF p0.upd # NoCid /\ p0.upd # p0.cid /\ (RepinRedirect \/ bl = <<>>)
          THEN UpdateDecide(env, ps, p0.upd, p0.cid, p0)
+    \* existing, err := PinGet(cid): only "not found" means "new pin"; any other read error ends the call, nothing is
+    \* allocated or submitted
+    ELSE IF GetFails(env, p0.cid) THEN Refuse
     ELSE
       LET ex == IF Has(ps, p0.cid) THEN <<Ent(ps, p0.cid)>> ELSE <<>>
           \* setupReplicationFactor
@@ -164,12 +170,13 @@ Reverse(s) == [i \in 1..Len(s) |-> s[Len(s) + 1 - i]]
 \* Cluster.Unpin(c) with unpinClusterDag / cidsFromMetaPin
 UnpinDecide(env, ps, c) ==
     IF env.follower THEN Refuse
+    ELSE IF GetFails(env, c) THEN Refuse
     ELSE IF ~Has(ps, c) THEN Refuse
     ELSE LET e == Ent(ps, c) IN
       CASE e.type = "data" -> Remove(c, {c}, <<c>>)
         [] e.type = "meta" ->
              IF e.ref = NoCid THEN Refuse
-             ELSE IF ~Has(ps, e.ref) THEN Refuse
+             ELSE IF GetFails(env, e.ref) \/ ~Has(ps, e.ref) THEN Refuse
              \* BlockGet of the cluster-DAG block fails: cidsFromMetaPin returns an error and unpinClusterDag gives
              \* up BEFORE the first LogUnpin, so a failed Unpin leaves the pinset as it was. Only the cluster-DAG
              \* block is read (its links are the shards); shard blocks are never fetched.
@@ -181,6 +188,12 @@ UnpinDecide(env, ps, c) ==
                   RemoveSharded(c, Range(ls) \cup {e.ref, c}, Reverse(ls) \o <<e.ref, c, c>>, Len(ls))
         [] OTHER -> Refuse
 
+\* ENTRY POINTS.  A call may carry `via`: "go" = the exported method of *Cluster (Pin, PinPath, Unpin, UnpinPath,
+\* PinUpdate), "rpc" = the Cluster.Pin / Cluster.Unpin / Cluster.PinPath / Cluster.UnpinPath endpoint of the peer's RPC
+\* server, which is how the REST API, the adder and other peers get in (PinUpdate has no endpoint of its own: it is
+\* reached with the update option of Cluster.Pin; "rpcpin" is that endpoint with a full pin object).  rpc_api.go calls
+\* pin() / Unpin() / PinPath() / UnpinPath() directly, and every guard (follower mode first) sits in those, so the
+\* decision -- and the statement: refusals are the same whichever way a request comes in -- does not depend on `via`.
 Decide(env, ps, call) ==
     CASE call.op = "pin"       -> PinDecide(env, ps, ReqOf(call.cid, call.o), <<>>)
       [] call.op = "rpcpin"    -> PinDecide(env, ps, call.p, <<>>)
